@@ -31,8 +31,9 @@ def _loader(ev):
             return i, "the last word of the re-assembled output was changed (and a capability added to the loaded module)"
     for i, e in enumerate(ev):
         if e.get("ev") == "load" and e["direct"].get("st") == "err":
-            e["direct"]["e"] = "NoSuchError"; e["words"]["e"] = "NoSuchError"
-            return i, "the reported loader error was renamed"
+            # (a variant the pinned tree knows, so that it is judged; it is nobody's alternative name)
+            e["direct"]["e"] = "WrongOpNameOperand"; e["words"]["e"] = "WrongOpNameOperand"
+            return i, "the reported loader error was replaced by another variant"
     return None
 
 
